@@ -35,6 +35,12 @@ impl AccConfig {
     pub fn get_config1(&self) -> AccConfig1 {
         self.acc_config1
     }
+    pub fn set_config0(&mut self, acc_config0: AccConfig0) {
+        self.acc_config0 = acc_config0;
+    }
+    pub fn set_config1(&mut self, acc_config1: AccConfig1) {
+        self.acc_config1 = acc_config1;
+    }
 }
 
 /// Configure how the accelerometer samples, filters and ouputs data 
